@@ -16,7 +16,8 @@ LONG = [b"L" * 200, ("\u9577" * 60).encode()]
 # ordinary names that look like something else to careless code: dots that are not "." / "..", and the field names of the
 # manifest and stage schemas (old and new), e.g. the `Contents` directory of a macOS bundle
 DOTTY = [b"report..final.txt", b"..hidden", b"x..", b"...", b"a.b..c", b".a.", b"..."]
-FIELDS = [b"Contents", b"Path", b"Checksum", b"IsDir", b"contents", b"path", b"checksum", b"is-dir", b"skip-cache", b"outputs", b"SkipCache"]
+FIELDS = [b"Contents", b"Path", b"Checksum", b"IsDir", b"contents", b"path", b"checksum", b"is-dir", b"skip-cache", b"outputs", b"SkipCache",
+          b"DisableRecursion", b"disable-recursion"]
 SAFE_CLASSES = dict(ascii=ASCII, spaceq=SPACEQ, yamlish=YAMLISH, control=CONTROL, html=HTML, unicode=UNICODE, long=LONG, dotty=DOTTY,
                     fields=FIELDS)
 
@@ -132,7 +133,8 @@ def basic_project(rng, cid, tier, classes=None, stats=None, n_stages=None, allow
         sp = (b"stage%d.yaml" % s) if rng.random() < 0.6 else (b"stages/s%d.yaml" % s)
         stages.append((sp, dict(cmd=b"", wd=b".", out=outs, **({"in": ins} if ins else {}))))
     case = dict(id=cid, init=init, stages=stages, ops=[])
-    case["cache"] = rng.choice(["rel", "rel", "abs", "shm", "sym"])     # sym: .dud/cache is a symbolic link to a directory elsewhere
+    # sym: .dud/cache is a symbolic link to a directory elsewhere; symx: … on another device
+    case["cache"] = rng.choice(["rel", "rel", "abs", "shm", "sym", "symx"])
     if rng.random() < 0.25:
         case["oddpath"] = True          # ':' and blanks in the absolute path of the project / the cache
     if rng.random() < 0.15:
@@ -167,7 +169,7 @@ def gen_history(rng, case, nops, allow=("commit", "checkout", "status", "push", 
     files = [e for e in case["init"] if e[0] == "file"]
     cur_spec = {e[1]: e[2] for e in files}          # path -> content spec as last written
     dirs = [p for p, fl in arts if "d" in fl]
-    allow = tuple(allow) + (("append", "damage") if "edit" in allow and "checkout" in allow else ())
+    allow = tuple(allow) + (("append", "damage", "stale_link") if "edit" in allow and "checkout" in allow else ())
     committed = False
     pushed = False
     present = True          # every cached artifact is in the workspace
@@ -234,6 +236,16 @@ def gen_history(rng, case, nops, allow=("commit", "checkout", "status", "push", 
                 info["commits"] += 1
             ops.append(("append", e[1], spec))
             cur_spec[e[1]] = spec
+            dirty = True
+        elif k == "stale_link":
+            # a tracked entry is a link to ANOTHER object of the cache (an older / other version); a copy checkout is asked for:
+            # whatever it decides, the object the link points to keeps its bytes
+            if not committed or not files:
+                continue
+            e = rng.choice(files)
+            if not any(e[1] == p or e[1].startswith(p + b"/") for p, fl in arts if "s" not in fl):
+                continue
+            ops += [("relink", e[1], rng.randrange(50)), ("checkout", "c", False, []), ("status", [])]
             dirty = True
         elif k == "damage":
             # the object of a tracked file is damaged in the cache, then dud is asked for a verified copy of it: must fail and
@@ -307,9 +319,13 @@ def pipeline_project(rng, cid, n, cyclic=False, tier="quick", all_edges=None, si
             if k != i:
                 continue
             if kinds[j] == "dir" and split_dirs.get(j):
-                # the producer declares TWO outputs: the directory itself without recursion and the directory two levels below it
+                # the producer declares TWO outputs: the directory itself without recursion and the directory two levels below it;
+                # the consumer reads inside the nested one, and often ALSO a file of the outer one (two inputs owned by one stage)
                 ins.append((outpath[j] + b"/sub/deep/h", ""))
                 args_in.append(outpath[j] + b"/sub/deep/h")
+                if rng.random() < 0.6:
+                    ins.append((outpath[j] + b"/f", ""))
+                    args_in.append(outpath[j] + b"/f")
                 nested_used = True
             elif kinds[j] == "dir":
                 how = rng.choice(["dir", "nested", "nested2"])
